@@ -13,6 +13,23 @@ fn sqrt_fixed(x: f64) -> f64 {
 #[kani::proof]
 #[kani::stub(f64::sqrt, sqrt_fixed)]
 #[kani::stub(f64::powi, powi_model)]
+fn so3_normalise_zero_iff() {
+    let mut q = SO3State { x: kani::any(), y: kani::any(), z: kani::any(), w: kani::any() };
+    kani::assume(q.x.is_finite() && q.y.is_finite() && q.z.is_finite() && q.w.is_finite());
+    unsafe { NORM = kani::any(); }
+    let r = q.normalise();
+    let norm = unsafe { NORM };
+    assert!(unsafe { SQRT_CALLS } == 1);
+    kani::cover!(r.is_ok());
+    kani::cover!(r.is_err());
+    match r {
+        Err(StateError::ZeroMagnitude) => { assert!(norm < 1e-9); }
+        Ok(_) => { assert!(!(norm < 1e-9)); }
+    }
+}
+#[kani::proof]
+#[kani::stub(f64::sqrt, sqrt_fixed)]
+#[kani::stub(f64::powi, powi_model)]
 fn so3_normalise_contract() {
     let mut q = SO3State { x: kani::any(), y: kani::any(), z: kani::any(), w: kani::any() };
     kani::assume(q.x.is_finite() && q.y.is_finite() && q.z.is_finite() && q.w.is_finite());
